@@ -48,11 +48,16 @@ Inductive attack :=
 | ASupplied (l : list N)        (* the verifier is given these messages *)
 | ANonce (k : N)                (* another nonce *)
 | AKey                          (* another issuer key *)
-| AAlter (pos : nat) (x : N).   (* proof byte pos XOR x *)
+| AAlter (pos : nat) (x : N)    (* proof byte pos XOR x *)
+| AForge (fam : N) (cR : list nat) (sup : list N) (pads : list nat).
+   (* a structurally crafted proof (family fam, see harness/c17/forge.go) whose payload reveals cR ++ pads,
+      presented with the messages sup *)
 
 Record case := {
   c_msgs : list N; c_R : list nat; c_nonce : N; c_key : N;
-  c_payload : list N; c_len : N; c_proof : list N; c_intact : bool; c_att : list (attack * verdict) }.
+  c_payload : list N; c_len : N; c_proof : list N; c_intact : bool;
+  c_tr : list (list nat * nat * list N);   (* padding bits, extra messages, observed challenge-input labels *)
+  c_att : list (attack * verdict) }.
 
 Definition list_N_eqb (a b : list N) : bool :=
   (Nat.eqb (length a) (length b)) && forallb (fun '(x, y) => N.eqb x y) (combine a b).
@@ -70,6 +75,51 @@ Fixpoint diff_resp (old new : list (list N)) (rs : list N) : list N :=
       | o :: orr, r :: rr => bump (negb (list_N_eqb o c)) r :: diff_resp orr nr rr
       | _, _ => 1 :: diff_resp [] nr []
       end
+  end.
+
+(* ---------- the verifier's challenge input, symbolically: the model's own transcript/vsplit instantiated on labels
+   1 Abar, 2 A', 3 h0, 4 VC1 commitment, 5 d, 6 VC2 commitment, 7 nonce, 100+i generator h_i ---------- *)
+Definition label_transcript (n : nat) (R pads : list nat) (nsup : nat) : list N :=
+  let bits := mask_of (8 * bv_len n) (R ++ pads) in
+  let gens := map (fun i => 100 + N.of_nat i) (seq 0 n) in
+  transcript N 1 2 3 4 5 (snd (vsplit N 0 bits gens (repeat 0 nsup))) 6 ++ [7].
+
+Fixpoint drop_last {A} (l : list A) : list A :=
+  match l with [] => [] | [_] => [] | x :: r => x :: drop_last r end.
+
+(* the forger of harness/c17/forge.go in the exponent model.  pf: the honest proof; e r2: witnesses of VC1;
+   bl: the honest blinding factors; z: the forger's random scalars *)
+Definition forge (fam : N) (x : N) (pf : proof N) (e r2 : N) (bl z : nat -> N) (nonce : N)
+           (n : nat) (cR pads : list nat) (sup : list N) : proof N :=
+  let bits := mask_of (8 * bv_len n) (cR ++ pads) in
+  let hh0 := h0 N zgen x n in
+  let '(rv, hidden) := vsplit N 0 bits (hs N zgen x n) sup in
+  let b1 := [p_aprime pf; hh0] in
+  let st1 := zsub (p_abar pf) (p_d pf) in
+  let b2 := p_d pf :: hh0 :: hidden in
+  let st2 := zopp (zadd 1 (dot N 0 zadd zmul rv)) in
+  let zs k off := map (fun i => z (off + i)%nat) (seq 0 k) in
+  let lin' := lin N 0 zadd zmul in
+  let chal c1 c2 := zH (transcript N (p_abar pf) (p_aprime pf) hh0 c1 (p_d pf) hidden c2) nonce in
+  let honest1 c := resp N zmul zsub c [bl 0%nat; bl 1%nat] [zopp e; r2] in
+  let mk c1 r1 c2 r2' := {| p_count := n; p_mask := bits; p_aprime := p_aprime pf; p_abar := p_abar pf; p_d := p_d pf;
+                            p_c1 := c1; p_r1 := r1; p_c2 := c2; p_r2 := r2' |} in
+  let sim bases st c off := let rs := zs (length bases) off in (zadd (lin' bases rs) (zmul st c), rs) in
+  let sur bases st off := let rs := zs (S (length bases)) off in (lin' (bases ++ [st]) rs, rs) in
+  match fam with
+  | 1 => let '(c1, r1) := sur b1 st1 0%nat in let '(c2, r2') := sur b2 st2 10%nat in mk c1 r1 c2 r2'
+  | 2 => let '(c2, r2') := sur b2 st2 10%nat in mk (p_c1 pf) (honest1 (chal (p_c1 pf) c2)) c2 r2'
+  | 3 => let c := z 99%nat in
+         let '(c1, r1) := sim b1 st1 c 0%nat in let '(c2, r2') := sim b2 st2 c 10%nat in mk c1 r1 c2 r2'
+  | 4 => let c := chal (p_c1 pf) 1 in
+         let '(c2, r2') := sim b2 st2 c 10%nat in mk (p_c1 pf) (honest1 c) c2 r2'
+  | 5 => let c := chal 1 1 in
+         let '(c1, r1) := sim b1 st1 c 0%nat in let '(c2, r2') := sim b2 st2 c 10%nat in mk c1 r1 c2 r2'
+  | 6 => mk (p_c1 pf) (p_r1 pf) (p_c2 pf) (p_r2 pf)
+  | 7 => mk (p_c1 pf) (p_r1 pf ++ [z 0%nat]) (p_c2 pf) (p_r2 pf)
+  | 8 => mk (p_c1 pf) (p_r1 pf) (p_c2 pf) (p_r2 pf ++ [z 0%nat])
+  | 9 => mk (p_c1 pf) (drop_last (p_r1 pf)) (p_c2 pf) (p_r2 pf)
+  | _ => mk (p_c1 pf) (p_r1 pf) (p_c2 pf) (drop_last (p_r2 pf))
   end.
 
 Definition expected_len (n hidden : nat) : N :=
@@ -92,6 +142,9 @@ Definition check_case (c : case) : bool :=
   end &&
   N.eqb (c_len c) (expected_len n hidden) &&
   Bool.eqb (c_intact c) (list_N_eqb (proof_after_verify Fixed (c_proof c)) (c_proof c)) &&
+  (* the bytes the verifier hashes into the challenge, point by point *)
+  forallb (fun '(pads, extra, labels) =>
+             list_N_eqb labels (label_transcript n (idx_from 0 mask) pads (nrev + extra)%nat)) (c_tr c) &&
   (* layout of the real proof bytes *)
   let lay :=
     match c_proof c with
@@ -126,6 +179,11 @@ Definition check_case (c : case) : bool :=
           | ASupplied l => zverify Fixed x pf nonce (map m_of l)
           | ANonce k => zverify Fixed x pf (nonce_of (c_nonce c + 1 + k)) rv
           | AKey => zverify Fixed (key_of (c_key c + 1000)) pf nonce rv
+          | AForge fam cR sup pads =>
+              zverify Fixed x
+                (forge fam x pf (zmix seed 1) (zmix seed 4) (fun i => zmix seed (N.of_nat i + 10))
+                       (fun i => zmix seed (N.of_nat i + 500)) nonce n cR pads (map m_of sup))
+                nonce (map m_of sup)
           | AAlter pos xm =>
               match lay with
               | None => VPanic (* alterations need the proof bytes *)
